@@ -499,6 +499,9 @@ def check(ctx):
                 r6.ok("type_to_string agrees on Type::%s: %s" % (variant, list(forms.values())[0]))
             else:
                 r6.bad(V(r6.id, "type_to_string", "sibling-disagreement:%s" % variant, "the three type_to_string renderers differ on Type::%s: %s" % (variant, forms)))
+    # the payload type of an event is the annotation of the variable that is emitted (shared with C12-D7)
+    from c12 import check_annotated_bindings
+    check_annotated_bindings(P, r6)
     r6.require_floor(10, "translation-path facts")
     rules.append(r6)
 
